@@ -124,6 +124,7 @@ namespace pika {
             if (counter_.load(std::memory_order_relaxed) > 0 || !notified_)
             {
                 PIKA_VERIF_POST("latch.mustwait", this, counter_.load(std::memory_order_relaxed), notified_ ? 1 : 0);
+                PIKA_VERIF_POINT("latch.inlock", this, 0, 0);
                 cond_.data_.wait(l, "pika::latch::wait");
 
                 PIKA_ASSERT(counter_.load(std::memory_order_relaxed) == 0);
@@ -147,6 +148,7 @@ namespace pika {
             std::ptrdiff_t old_count = counter_.fetch_sub(update, std::memory_order_relaxed);
             PIKA_VERIF_POST("latch.dec", this, old_count - update, update);
             PIKA_ASSERT(old_count >= update);
+            PIKA_VERIF_POINT("latch.inlock", this, 1, 0);
 
             if (old_count > update)
             {
